@@ -482,8 +482,8 @@ static json gen_bonded(const std::string &kind) {
 
 // =================================================================== (ii) potential functions
 struct StdoutSilencer {  // PotentialFunctionCBSPL::extrapolExclParam chats on std::cout
-  std::streambuf *old;
   std::ostringstream sink;
+  std::streambuf *old;
   StdoutSilencer() : old(std::cout.rdbuf(sink.rdbuf())) {}
   ~StdoutSilencer() { std::cout.rdbuf(old); }
 };
@@ -579,14 +579,15 @@ static ND param_derivative(PotCtx &P, Index i, Index j, double r, ld &noise) {
         break;
       }
       if (std::fabs(fp - fm) >= 0.25 * (std::fabs(fp) + std::fabs(fm)) && (fp != 0 || fm != 0)) break;
-      if (fp == fm && it > 60) break;  // does not depend on this parameter
+      if (fp == fm && it >= 8) break;  // does not depend on this parameter (a small step only loosens the noise term)
       h *= 2;
     }
   }
   h = std::ldexp(1.0, int(std::floor(std::log2(h))));
   ND n = nd_central(f, l0, h);
   ld mag = i < 0 ? std::max(fmag(P, r), n.fmag) : n.fmag;
-  noise = 32 * (ld)EPS * mag / n.hmin;
+  // + absolute floor for subnormal values (exp underflow): spacing 4.9e-324, amplified by 1/h
+  noise = 32 * (ld)EPS * mag / n.hmin + 1e-300L * (1 + 1 / (ld)n.hmin);
   return n;
 }
 
@@ -636,11 +637,23 @@ static Result run_pot(const json &c) {
     }
     if (!r.ok) return r;
     // second derivatives: symmetric, and equal to the numerical derivative of DF
-    Index lim = std::min<Index>(P.nopt, 8);  // CBSPL: D2F is identically zero; sample the first 8 columns + the rows of the active knots
+    // CBSPL (up to 35 free knots): numerical D2F only for the knots around r and the two outermost ones; symmetry for all
+    auto selected = [&](Index i) {
+      if (!P.cb) return true;
+      Index nexcl = Index(P.lam.size()) - 4 - P.nopt;
+      Index a = Index(std::floor(rr / P.dr)) - nexcl;
+      return i == 0 || i == P.nopt - 1 || (i >= a - 1 && i <= a + 4);
+    };
     for (Index i = 0; i < P.nopt; ++i)
       for (Index j = 0; j < P.nopt; ++j) {
-        if (P.cb && i >= lim && j >= lim && (i - j > 3 || j - i > 3)) continue;
         double d2 = P.pf->CalculateD2F(i, j, rr), d2t = P.pf->CalculateD2F(j, i, rr);
+        if (!(selected(i) && selected(j))) {
+          if (!close(d2, d2t, 1e-12, 1e-300)) {
+            r.fail(F + "::CalculateD2F/symmetry", fmt("D2F(%ld,%ld)=%.15g but D2F(%ld,%ld)=%.15g at r=%.10g", long(i), long(j), d2, long(j), long(i), d2t, rr));
+            return r;
+          }
+          continue;
+        }
         if (!close(d2, d2t, 1e-12, 1e-300)) {
           r.fail(F + "::CalculateD2F/symmetry", fmt("D2F(%ld,%ld)=%.15g but D2F(%ld,%ld)=%.15g at r=%.10g", long(i), long(j), d2, long(j), long(i), d2t, rr));
           return r;
@@ -838,22 +851,31 @@ static Result run_spline(const json &c) {
   r.cls(g.uniform ? "uniform" : "nonuniform");
   r.nontrivial = !g.uniform || x.size() >= 3;
   auto S = [&](double v) { return sp->Calculate(v); };
+  size_t nk = knots.size();
+  // size of the terms summed in Calculate on piece i: a cubic is bounded by a small multiple of its largest sample
+  auto piece_mag = [&](size_t i) {
+    ld m = 0;
+    for (int q = 0; q <= 8; ++q) {
+      double v = S(knots[i] + (knots[i + 1] - knots[i]) * q / 8.0);
+      if (std::isfinite(v)) m = std::max(m, (ld)std::fabs(v));
+    }
+    return 4 * m;
+  };
   // magnitude model of the rounding noise in Calculate: eps * (|S| + |S'| |x|) (LinSpline evaluates a*r+b)
-  auto check = [&](double xe, const ND &n, const char *where) {
+  auto check = [&](double xe, const ND &n, const char *where, size_t piece) {
     double got = sp->CalculateDerivative(xe);
     if (!n.finite || !std::isfinite(got)) {
       // non-finite coefficients are a C12 matter (periodic cubic); nothing to differentiate here
       r.cls("non-finite-spline");
       return true;
     }
-    ld noise = 64 * (ld)EPS * (n.fmag + fabsl(n.d) * ((ld)kg.xabs + (ld)kg.hmax)) / n.hmin;
+    ld noise = 64 * (ld)EPS * (n.fmag + piece_mag(piece) + fabsl(n.d) * ((ld)kg.xabs + (ld)kg.hmax)) / n.hmin + 1e-300L * (1 + 1 / (ld)n.hmin);
     ld tol = 100 * n.err + 1e-7L * fabsl(n.d) + noise;
     if (fabsl((ld)got - n.d) <= tol) return true;
     r.fail(cname + "::CalculateDerivative", fmt("%s x=%.17g: CalculateDerivative=%.12g numerical=%.12Lg (+-%.3Lg, noise %.3Lg)", where, xe, got, n.d,
                                                 n.err, noise));
     return false;
   };
-  size_t nk = knots.size();
   // interior points of intervals (all intervals up to 40, then a stride), plus generated evaluation points
   size_t stride = std::max<size_t>(1, (nk - 1) / 40);
   for (size_t i = 0; i + 1 < nk; i += stride) {
@@ -862,7 +884,7 @@ static Result run_spline(const json &c) {
       double xe = knots[i] + fr * h;
       double hh = std::min(xe - knots[i], knots[i + 1] - xe) * 0.75;
       if (!(hh > 1024 * EPS * std::fabs(xe))) continue;
-      if (!check(xe, nd_central(S, xe, hh), "inside")) return r;
+      if (!check(xe, nd_central(S, xe, hh), "inside", i)) return r;
     }
   }
   for (double xe : c.at("ev").get<std::vector<double>>()) {
@@ -873,13 +895,14 @@ static Result run_spline(const json &c) {
     double h = knots[i + 1] - knots[i];
     if (room > 1e-3 * h) {
       r.cls(xe < knots[0] || xe > knots[nk - 1] ? "eval-outside" : "eval-inside");
-      if (!check(xe, nd_central(S, xe, std::min(room * 0.75, h / 4)), "inside")) return r;
+      if (!check(xe, nd_central(S, xe, std::min(room * 0.75, h / 4)), "inside", i)) return r;
     }
   }
   // knots: one-sided; the derivative at a kink of a linear spline is either one-sided derivative
   for (size_t i = 0; i < nk; i += stride) {
     double xe = knots[i];
     std::vector<ND> sides;
+    ld pm = std::max(piece_mag(std::min(i, nk - 2)), piece_mag(i > 0 ? i - 1 : 0));
     if (i + 1 < nk) sides.push_back(nd_onesided(S, xe, (knots[i + 1] - knots[i]) / 4));
     if (i > 0) sides.push_back(nd_onesided(S, xe, -(knots[i] - knots[i - 1]) / 4));
     if (i == 0) sides.push_back(nd_onesided(S, xe, -(knots[1] - knots[0]) / 4));                // continuation of piece 0
@@ -890,7 +913,7 @@ static Result run_spline(const json &c) {
     for (const ND &n : sides) {
       if (!n.finite || !std::isfinite(got)) continue;
       anyfinite = true;
-      ld noise = 64 * (ld)EPS * (n.fmag + fabsl(n.d) * ((ld)kg.xabs + (ld)kg.hmax)) / n.hmin;
+      ld noise = 64 * (ld)EPS * (n.fmag + pm + fabsl(n.d) * ((ld)kg.xabs + (ld)kg.hmax)) / n.hmin + 1e-300L * (1 + 1 / (ld)n.hmin);
       ld tol = 100 * n.err + 1e-7L * fabsl(n.d) + noise;
       if (fabsl((ld)got - n.d) <= tol) anyok = true;
       msg += fmt(" one-sided %.12Lg (+-%.3Lg, noise %.3Lg)", n.d, n.err, noise);
@@ -932,6 +955,9 @@ static json gen_spline() {
   c["ev"] = gen_eval(x);
   return c;
 }
+
+// a sanitizer death must not look like "failures reported" (exit 1) to the driver
+extern "C" const char *__asan_default_options() { return "exitcode=77"; }
 
 int main(int argc, char **argv) {
   std::vector<Sub> subs;
